@@ -243,6 +243,18 @@ func (nl *NodeList) RemoveNodes(ids []string) {
 	}
 
 	nl.Nodes = newNodeList
+
+	// Removed nodes can no longer be root elements
+	if len(nl.RootElements) > 0 {
+		newRootElements := []string{}
+		for _, id := range nl.RootElements {
+			if _, ok := idDict[id]; !ok {
+				newRootElements = append(newRootElements, id)
+			}
+		}
+		nl.RootElements = newRootElements
+	}
+
 	nl.cleanEdges()
 }
 
